@@ -55,6 +55,7 @@ type ClientHello struct {
 	Exts          []Ext
 	NoExtBlock    bool   // legacy hello that ends after compression_methods
 	Trailing      []byte // bytes after the extensions block inside the body (malformed; hostile inputs only)
+	ExtsTrailing  []byte // bytes at the end of the extensions block, inside its length (malformed; hostile inputs only)
 }
 
 // Clone returns a deep copy.
@@ -65,6 +66,7 @@ func (h *ClientHello) Clone() *ClientHello {
 	c.CipherSuites = append([]byte(nil), h.CipherSuites...)
 	c.Compression = append([]byte(nil), h.Compression...)
 	c.Trailing = append([]byte(nil), h.Trailing...)
+	c.ExtsTrailing = append([]byte(nil), h.ExtsTrailing...)
 	c.Exts = make([]Ext, len(h.Exts))
 	for i, e := range h.Exts {
 		c.Exts[i] = Ext{e.Type, append([]byte(nil), e.Data...)}
@@ -98,7 +100,7 @@ func (h *ClientHello) Body() []byte {
 	b = append(b, byte(len(h.Compression)))
 	b = append(b, h.Compression...)
 	if !h.NoExtBlock {
-		eb := ExtBlock(h.Exts)
+		eb := append(ExtBlock(h.Exts), h.ExtsTrailing...)
 		b = put16(b, len(eb))
 		b = append(b, eb...)
 	}
